@@ -100,7 +100,11 @@ def run(prop, tier, seed, theorems, make_pairs, level_note, rule, n_pairs=None, 
                 continue
             for i, (eb, ev) in enumerate(zip(bev, vev)):
                 R.evaluations += 1
-                hits = rel(eb, ev, base, v)
+                nf = [pth for e_ in (eb, ev) if "ok" in e_.get("ep", {}) for pth in core.nonfinite_paths(e_["ep"]["ok"])]
+                if nf:
+                    hits = [("the evaluation of finite inputs returns a value that is not a finite number", {"paths": nf[:6], "variant": label})]
+                else:
+                    hits = rel(eb, ev, base, v)
                 if not hits and "ok" in eb.get("ep", {}):
                     seen.add(hashlib.sha1((json.dumps(v.job(), sort_keys=True) + str(i)).encode()).hexdigest())
                 for what, detail in hits[:1]:
